@@ -210,6 +210,35 @@ def impl_build_list(server, tp, now, stats, name):
     return run_coro(server.build_list_string(StubConn(stats, 0), BASE / name))
 
 
+class StubMlstConn:
+    """what Server.mlst needs of a connection: path_io, a response() sink; get_paths is stubbed on the server"""
+
+    def __init__(self, stats, kind):
+        self.path_io = StubPathIO(stats, kind)
+        self.out = []
+
+    def response(self, code, lines, list_mode=False):
+        self.out.append((code, list(lines), list_mode))
+
+
+def impl_mlst_lines(server, stats, kind, name):
+    """the body of the REAL Server.mlst (decorators stripped via __wrapped__): the reply it hands to response()"""
+    import aioftp
+
+    f = aioftp.Server.mlst
+    while hasattr(f, "__wrapped__"):
+        f = f.__wrapped__
+    conn = StubMlstConn(stats, kind)
+    old = server.get_paths
+    server.get_paths = lambda c, rest: (BASE / name, pathlib.PurePosixPath("/") / name)
+    try:
+        run_coro(f(server, conn, name))
+    finally:
+        server.get_paths = old
+    code, lines, lm = conn.out[0]
+    return (code, lm), lines
+
+
 def canon_info(path, info):
     return [
         str(path),
@@ -255,6 +284,61 @@ def model_list_result(m):
         [name, sx.txt(v[1]), v[2], sx.txt(v[3]), sx.txt(v[4]), sx.txt(v[5]), sx.txt(v[6]), sx.txt(v[7]),
          sx.txt(v[8][0]) if v[8] else None],
     ]
+
+
+class FakeStream:
+    """a data stream that hands out the given lines, then EOF"""
+
+    def __init__(self, lines):
+        self.lines = list(lines)
+
+    async def readline(self):
+        return self.lines.pop(0) if self.lines else b""
+
+    async def finish(self, *a, **k):
+        return None
+
+
+def impl_client_list(client, lines, raw, now_dt, mlsd_50x=False):
+    """the REAL Client.list() loop (AsyncLister, parser chain, '.'/'..' skip, MLSD->LIST fallback) over the
+    given data lines; only get_stream is stubbed. -> ('ok', cmd used, [(path, info)]) | ('err', tag) | ('status',)"""
+    import aioftp
+
+    set_client_now(now_dt)
+    used = []
+
+    async def get_stream(command, *a, **k):
+        used.append(command.split(" ")[0])
+        if command.startswith("MLSD") and mlsd_50x:
+            raise aioftp.StatusCodeError(aioftp.Code("1xx"), aioftp.Code("502"), ["not implemented"])
+        return FakeStream([l.encode("utf-8") + b"\r\n" for l in lines])
+
+    client.get_stream = get_stream
+    try:
+        got = run_coro(client.list("d", raw_command=raw)._to_list())
+    except aioftp.StatusCodeError:
+        return ("status", used)
+    except (ValueError, KeyError, IndexError) as e:
+        return ("err", err_tag(e), used)
+    finally:
+        del client.get_stream
+    return ("ok", used, got)
+
+
+def impl_client_stat_mlst(client, info):
+    """the REAL Client.stat() on a given MLST reply (info lines); only command() is stubbed"""
+    import aioftp
+
+    async def command(*a, **k):
+        return aioftp.Code("250"), list(info)
+
+    client.command = command
+    try:
+        return ["ok", list(run_coro(client.stat("d/x")).items())]
+    except (ValueError, KeyError, IndexError) as e:
+        return ["err", err_tag(e)]
+    finally:
+        del client.command
 
 
 # --------------------------------------------------------------------------------------------
@@ -497,7 +581,10 @@ def correspondence(ctx, budget=None):
         "skews {0,1,59,60,3599,3600} s; TZ=UTC in-process and two fixed-offset zones in subprocesses; (c) strptime and "
         "parse_ls_date on mutated/malformed date strings (Unicode digits and spaces, case, missing fields); (d) MLSx build/parse on "
         "generated entries and malformed lines; (e) LIST build/parse incl. every file type and all 4096 permission values, link lines, "
-        "malformed lines; (f) loopback sessions. A case is non-trivial when its input is distinct (hash)."
+        "malformed lines; (f) wire-level sessions on simnet: real Server+Client, MemoryPathIO/PathIO/AsyncPathIO (disk trees with os.utime mtimes, chmod), "
+        "MLSD, LIST, the fallback from a server answering 502, stat() over MLST and over the fallback, each compared with the backend's truth (oracle) "
+        "and with the model pipeline; (g) the real Client.list loop / parser chain / Client.stat glue on stubbed streams. "
+        "A case is non-trivial when its input is distinct (hash)."
     )
 
     # ---------------- (a) calendar
@@ -817,7 +904,104 @@ def correspondence(ctx, budget=None):
     xcheck += [(22, [H, 0, n, [sz, 0, m, nl, mode], name], o)
                for (name, sz, m, n, n2, mode, nl), o in zip(lents[:8], lmo[:8])]
 
-    # ---------------- (f) loopback sessions
+    # ---------------- (g) the client's glue: Client.list() loop / parser chain / fallback, Client.stat() over MLST
+    nglue = 0
+    glue_client = aioftp.Client()
+    dot_lines_list = ["drwxr-xr-x 2 none none 0 Jan  1 10:00 .", "drwxr-xr-x 2 none none 0 Jan  1 10:00 ..", "drwxr-xr-x 2 none none 0 Jan  1 10:00 ..."]
+    dot_lines_mlsd = ["Type=dir; .", "Type=dir; ..", "Type=cdir; .", "Type=dir; ...", "Type=dir; .a"]
+    plan_cases = []
+    for _ in range(600 if thorough else 200):
+        k = rng.choice([0, 1, 2, 3, 5, 9])
+        idx = [rng.randrange(len(llines)) for _ in range(k)]
+        now_i = lents[idx[0]][4] if idx else rng.choice(cases)[2]
+        batch = [llines[i] for i in idx]
+        for _ in range(rng.choice([0, 0, 1, 2])):
+            batch.insert(rng.randrange(len(batch) + 1), rng.choice(dot_lines_list))
+        if rng.random() < 0.25:
+            # a malformed line: only ones the Windows parser cannot read either (it needs a leading digit)
+            bad = rng.choice(extra)
+            if not bad.strip()[:1].isdigit() and impl_parse_list_unix(client, bad, naive(now_i))[0] == "err":
+                batch.insert(rng.randrange(len(batch) + 1), bad)
+        raw = rng.choice([None, "LIST", "LIST", "MLSD"])
+        m50 = rng.random() < 0.5
+        plan_cases.append((batch, raw, m50, naive(now_i)))
+    mo_plan = ctx.model([(33, [{None: 0, "MLSD": 1, "LIST": 2}[raw], 1 if m50 else 0]) for _, raw, m50, _ in plan_cases])
+    mo_list = ctx.model([(31, [H, T, dt6(d), batch]) for batch, _, _, d in plan_cases])
+    for (batch, raw, m50, d), mp, ml in zip(plan_cases, mo_plan, mo_list):
+        ctx.case(("glue-list", tuple(batch), raw, m50, d))
+        ctx.traces_impl += 1
+        nglue += 1
+        r = impl_client_list(glue_client, batch, raw, d, mlsd_50x=m50)
+        if mp == 2:
+            if r[0] != "status":
+                ctx.disagree("Client.list plan", [raw, m50], "StatusCodeError", r[:2])
+            continue
+        if mp == 0:
+            if r[0] == "status" or r[-2 if r[0] == "ok" else -1] != ["MLSD"]:
+                ctx.disagree("Client.list plan", [raw, m50], "MLSD", r[:2])
+            continue  # LIST lines through the MLSx parser: covered by stream (d)
+        want_used = ["LIST"] if raw == "LIST" else ["MLSD", "LIST"]
+        used = r[1] if r[0] in ("ok", "status") else r[2]
+        if used != want_used:
+            ctx.disagree("Client.list plan", [raw, m50], want_used, used)
+        if ml[0] == -1:
+            mm = ["err", 1]  # whatever the unix parser raised, the chain raises ValueError
+            im = ["err", r[1]] if r[0] == "err" else ["ok"]
+        else:
+            mm = ["ok", [model_list_result([0, v])[1] for v in ml[1]]]
+            for v in mm[1]:
+                v[0] = str(pathlib.PurePosixPath("d") / v[0])
+            im = ["ok", [canon_info(p_, i_) for p_, i_ in r[2]]] if r[0] == "ok" else ["err", r[1]]
+        if mm != im:
+            ctx.disagree("Client.list(LIST) loop", {"lines": batch, "now": dt6(d)}, mm, im)
+    xcheck += [(31, [H, T, dt6(d), batch], ml) for (batch, _, _, d), ml in list(zip(plan_cases, mo_list))[:6]]
+    mlsd_batches = []
+    for _ in range(300 if thorough else 100):
+        k = rng.choice([0, 1, 2, 4, 8])
+        batch = [rng.choice(lines) for _ in range(k)]
+        for _ in range(rng.choice([0, 1, 2])):
+            batch.insert(rng.randrange(len(batch) + 1), rng.choice(dot_lines_mlsd + mal[:15]))
+        # the model takes PurePosixPath(name) = name (one path component): keep lines whose name pathlib leaves alone
+        batch = [l for l in batch if str(client.parse_mlsx_line(l)[0]) == l.rstrip().partition(" ")[2]]
+        mlsd_batches.append(batch)
+    mo = ctx.model([(32, [b]) for b in mlsd_batches])
+    for b, o in zip(mlsd_batches, mo):
+        ctx.case(("glue-mlsd", tuple(b)))
+        ctx.traces_impl += 1
+        nglue += 1
+        r = impl_client_list(glue_client, b, "MLSD", naive(0))
+        mm = ["ok", [[str(pathlib.PurePosixPath("d") / sx.txt(n)), [(sx.txt(k_), sx.txt(v_)) for k_, v_ in e]] for n, e in o[1]]] if o[0] != -1 else ["err", o[1]]
+        im = ["ok", [[str(p_), list(i_.items())] for p_, i_ in r[2]]] if r[0] == "ok" else ["err", r[1]]
+        if mm != im:
+            ctx.disagree("Client.list(MLSD) loop", b, mm, im)
+    # Client.stat over an MLST reply
+    infos = []
+    for (name, sz, ct, mt, kind, ex), l in list(zip(ents, lines))[: (1500 if thorough else 500)]:
+        infos.append(["-start", " " + l, " end"])
+    infos += [["-start"], [], ["-start", "", " end"], ["-start", "   Type=dir;  x  ", " end"], ["-start", "\t Type=file;Size=1; a b", " end"],
+              ["x", "Type=file; n"], ["-start", " ;;; ", " end"], ["-start", "　Type=dir; y", " end"]]
+    for _ in range(300):
+        infos.append(["-start", mutate(rng, " " + rng.choice(lines), [" ", ";", "=", "\t", "a"]), " end"])
+    mo = ctx.model([(30, [i]) for i in infos])
+    for i, o in zip(infos, mo):
+        ctx.case(("glue-stat", tuple(i)))
+        ctx.traces_impl += 1
+        nglue += 1
+        im = impl_client_stat_mlst(glue_client, i)
+        mm = ["ok", [(sx.txt(k_), sx.txt(v_)) for k_, v_ in o[1]]] if o[0] != -1 else ["err", o[1]]
+        if mm != im:
+            ctx.disagree("Client.stat(MLST)", i, mm, im)
+    xcheck += [(30, [i], o) for i, o in list(zip(infos, mo))[:6]]
+    # the server's MLST reply lines (Server.mlst through a stub connection)
+    for (name, sz, ct, mt, kind, ex), o in list(zip(ents, ctx.model([(34, [[sz, ct, mt, 1, 0] if ex else None, kind, name]) for name, sz, ct, mt, kind, ex in ents[:300]]))):
+        ctx.case(("mlst-lines", name, sz, ct, mt, kind, ex))
+        nglue += 1
+        im = impl_mlst_lines(server, mkstats(sz, ct, mt, 1, 0) if ex else None, kind, name)
+        if [sx.txt(x) for x in o] != im[1] or im[0] != ("250", True):
+            ctx.disagree("Server.mlst reply", [name, sz, ct, mt, kind, ex], [sx.txt(x) for x in o], im)
+    ctx.count("glue:Client.list loop / plan / Client.stat(MLST) / Server.mlst cases", nglue)
+
+    # ---------------- (f) wire-level sessions on simnet
     try:
         wire_level(ctx, tp, thorough)
     except Exception as e:
@@ -832,74 +1016,118 @@ def correspondence(ctx, budget=None):
 
 
 # --------------------------------------------------------------------------------------------
-# wire level: real server + real client on 127.0.0.1
+# wire level: the real aioftp.Server + aioftp.Client on simnet (in-memory network, virtual loop clock; the backends'
+# executor jobs run for real), three backends, os.utime-controlled mtimes on disk
 def wire_level(ctx, tp, thorough):
-    import aioftp
+    from .. import simnet
 
     rng = ctx.rng
-    loop = asyncio.new_event_loop()
-    try:
-        loop.run_until_complete(asyncio.wait_for(_wire(ctx, tp, rng, thorough), 120))
-    finally:
-        loop.close()
+    simnet.run(lambda net: _wire(ctx, tp, rng, thorough, net), wall_timeout=240 if thorough else 100)
 
 
 def tree_spec(rng, now, n):
-    """entries of one directory: (name, kind, size, mtime)"""
+    """entries of one directory: (name, kind, size, mtime, perm)"""
     ents, seen = [], set()
     ages = [0, 1, 59, 60, 3600, DAY, 30 * DAY, SPEC_HALF - 2 * DAY, SPEC_HALF - DAY - 61, SPEC_HALF + 1, SPEC_HALF + DAY, 365 * DAY, 400 * DAY,
-            10 * 365 * DAY, -60, -DAY, -200 * DAY]
+            10 * 365 * DAY, -60, -DAY, -200 * DAY, SPEC_HALF, SPEC_HALF - DAY - 1, 366 * DAY - SPEC_HALF, 365 * DAY - SPEC_HALF + 61]
     while len(ents) < n:
         name = gen_name(rng)
-        if name in seen or len(name.encode()) > 200 or "\t" in name and False:
+        if name in seen or len(name.encode()) > 200:
             continue
         seen.add(name)
         kind = rng.choice(["file", "file", "dir"])
-        size = rng.choice([0, 1, 5, 100, 4097]) if kind == "file" else 0
+        size = rng.choice([0, 1, 5, 100, 4097, 70000]) if kind == "file" else 0
         mtime = now - rng.choice(ages) - rng.choice([0, 0, 1, 30])
-        ents.append((name, kind, size, mtime))
+        perm = rng.choice([0o644, 0o600, 0o755, 0o444, 0o640, 0o711]) if kind == "file" else rng.choice([0o755, 0o700, 0o775])
+        ents.append((name, kind, size, mtime, perm))
     return ents
 
 
-def check_listing(ctx, backend, cmd, ents, got, now, now2, what):
-    """oracle at the wire: each entry exactly once, none invented, exact type/size, time per command"""
-    names = sorted(e[0] for e in ents)
+def check_listing(ctx, backend, cmd, truth_list, got, now, now2, what):
+    """oracle at the wire: each entry exactly once, none invented, exact type/size, time per command.
+    truth_list: dicts name/kind/size/mtime/... as the BACKEND has them"""
+    names = sorted(e["name"] for e in truth_list)
     gnames = sorted(str(p.name) for p, _ in got)
-    truth = {e[0]: e for e in ents}
+    truth = {}
+    for e in truth_list:
+        truth.setdefault(e["name"], []).append(e)
     bad = []
     if gnames != names:
-        missing = [n for n in names if n not in gnames]
-        inv = [n for n in gnames if n not in names]
-        lead = all(n != n.lstrip() for n in missing) and sorted(n.lstrip() for n in missing) == sorted(inv)
-        if cmd == "LIST" and missing and lead:
+        stripped = sorted(n.lstrip() for n in names if n.lstrip() not in (".", ".."))
+        if cmd == "LIST" and gnames == stripped:
+            # exactly the entries, but leading whitespace of names is gone: two entries may now share a name, and an
+            # entry called '<whitespace>.' or '<whitespace>..' is then skipped by the lister as '.' / '..'  (F13a)
+            missing = [n for n in names if n != n.lstrip()]
             ctx.violation(f"{what}: LIST loses leading whitespace of names {missing!r}",
                           {"key": "c07-list-name-leading-whitespace", "backend": backend, "names": names, "got": gnames})
-            truth = {e[0].lstrip() if e[0] in missing else e[0]: e for e in ents}
+            truth = {}
+            for e in truth_list:
+                truth.setdefault(e["name"].lstrip(), []).append(e)
         else:
-            bad.append(f"entry set differs: missing {missing!r} invented {inv!r}")
-    for p, info in got:
-        e = truth.get(str(p.name))
-        if e is None:
-            continue
-        name, kind, size, mtime = e
+            missing = [n for n in names if n not in gnames]
+            inv = [n for n in gnames if n not in names]
+            bad.append(f"entry set differs: missing {missing!r} invented {inv!r} (backend {names!r}, listed {gnames!r})")
+
+    def row_bad(e, info):
+        out = []
+        name, kind, size, mtime = e["name"], e["kind"], e["size"], e["mtime"]
         if info.get("type") != kind:
-            bad.append(f"{name!r}: type {info.get('type')} != {kind}")
-        if kind == "file" and info.get("size") != str(size):
-            bad.append(f"{name!r}: size {info.get('size')} != {size}")
+            out.append(f"{name!r}: type {info.get('type')} != {kind}")
+        if info.get("size") != str(size):
+            out.append(f"{name!r}: size {info.get('size')} != {size}")
         if cmd == "MLSD":
             want = fmt14(naive(mtime), "second")
         else:
             want, _ = date_oracle(mtime, now, now2, 0)
+            if info.get("unix.links") != str(e["nlink"]):
+                out.append(f"{name!r}: links {info.get('unix.links')} != {e['nlink']}")
+            perm = e["mode"] & 0o7777
+            if info.get("unix.mode") != (perm - 1 if perm & 0o1001 == 0o1001 else perm):
+                out.append(f"{name!r}: mode {info.get('unix.mode')} != {oct(perm)}")
         if want is not None and info.get("modify") != want:
-            bad.append(f"{name!r}: modify {info.get('modify')} != {want} (mtime {mtime}, now {now})")
+            out.append(f"{name!r}: modify {info.get('modify')} != {want} (mtime {mtime}, now {now})")
+        return out
+
+    for p, info in got:
+        cands = truth.get(str(p.name))
+        if not cands:
+            continue
+        rb = [row_bad(e, info) for e in cands]
+        if all(rb):
+            bad += rb[0]
     if bad:
         ctx.violation(f"{what}: {bad[:3]}",
                       {"key": "c07-wire-" + cmd.lower(), "backend": backend, "now": now, "client_now": now2,
-                       "entries": [list(e) for e in ents], "got": [[str(p), dict(i)] for p, i in got], "bad": bad[:10]})
+                       "entries": truth_list, "got": [[str(p), dict(i)] for p, i in got], "bad": bad[:10]})
 
 
-async def _wire(ctx, tp, rng, thorough):
+def model_listing(ctx, cmd, truth_list, now, now2, H, T):
+    """the model pipeline on the backend's truth -> sorted canonical rows (or ['err', tag])"""
+    from .. import sx
+
+    if cmd == "MLSD":
+        lines = ctx.model([(20, [[e["size"], e["ctime"], e["mtime"], e["nlink"], e["mode"]], 0 if e["kind"] == "file" else 1, e["name"]])
+                           for e in truth_list])
+        o = ctx.model([(32, [[sx.txt(l) for l in lines]])])[0]
+        if o[0] == -1:
+            return ["err", o[1]]
+        return sorted([sx.txt(n), sorted((sx.txt(k), sx.txt(v)) for k, v in ent)] for n, ent in o[1])
+    lines = ctx.model([(22, [H, 0, now, [e["size"], e["ctime"], e["mtime"], e["nlink"], e["mode"]], e["name"]]) for e in truth_list])
+    o = ctx.model([(31, [H, T, dt6(naive(now2)), [sx.txt(l) for l in lines]])])[0]
+    if o[0] == -1:
+        return ["err", 1]
+    return sorted((model_list_result([0, v])[1] for v in o[1]), key=repr)
+
+
+def canon_got(cmd, got):
+    if cmd == "MLSD":
+        return sorted([str(p.name), sorted(i.items())] for p, i in got)
+    return sorted(([str(p.name)] + canon_info(p, i)[1:] for p, i in got), key=repr)
+
+
+async def _wire(ctx, tp, rng, thorough, net):
     import io
+    import math
     import shutil
 
     import aioftp
@@ -907,33 +1135,40 @@ async def _wire(ctx, tp, rng, thorough):
 
     from .. import core
 
-    rounds = 6 if thorough else 2
+    H, T = (as_int(x) for x in consts())
+    rounds = 24 if thorough else 8
     tmp_root = core.BUILD / "tmp"
     tmp_root.mkdir(parents=True, exist_ok=True)
-    nsess = 0
+    nsess = nstat = 0
     for rnd in range(rounds):
         now = rng.choice([ymd(2024, 3, 1, 0, 0, 30), ymd(2025, 1, 1, 0, 10, 0), ymd(2023, 7, 2, 12, 0, 0), ymd(2100, 3, 1, 5, 0, 0),
-                          ymd(2024, 8, 29, 12, 0, 0), ymd(2001, 1, 1, 0, 0, 0)]) + rng.choice(DELTAS)
+                          ymd(2024, 8, 29, 12, 0, 0), ymd(2001, 1, 1, 0, 0, 0), ymd(2024, 2, 29, 23, 59, 30), ymd(2028, 12, 31, 23, 59, 59)]) + rng.choice(DELTAS)
         now2 = now + rng.choice(SKEWS)
-        ents = tree_spec(rng, now, rng.choice([0, 1, 7, 12]))
+        st_round = rnd == rounds - 1  # last round: one set-uid entry without x (F13b seen from Client.list)
+        ents = tree_spec(rng, now, rng.choice([0, 1, 7, 12, 25]) if not st_round else 4)
         for backend in ("memory", "pathio", "asyncpathio"):
+            tdir = None
             if backend == "memory":
                 root = Node("dir", "/", content=[], ctime=1, mtime=1)
                 d = Node("dir", "d", content=[], ctime=1, mtime=1)
                 root.content.append(d)
-                for name, kind, size, mtime in ents:
+                truth = []
+                for name, kind, size, mtime, perm in ents:
+                    if mtime == 0:
+                        continue  # Node(mtime=0) means "now" (observation in the notes)
                     d.content.append(Node(kind, name, ctime=mtime - 5, mtime=mtime,
                                           content=io.BytesIO(b"x" * size) if kind == "file" else []))
+                    truth.append({"name": name, "kind": kind, "size": size if kind == "file" else 0, "mtime": mtime, "ctime": mtime - 5,
+                                  "nlink": 1, "mode": (stat_mod.S_IFREG | 0o666) if kind == "file" else (stat_mod.S_IFDIR | 0o777)})
                 factory = lambda *a, state=None, _root=root, **k: aioftp.MemoryPathIO(*a, state=[_root], **k)
                 base = "/"
-                use = ents
             else:
                 tdir = tmp_root / f"c07-{os.getpid()}-{rnd}-{backend}"
                 shutil.rmtree(tdir, ignore_errors=True)
                 (tdir / "d").mkdir(parents=True)
-                use = []
-                for name, kind, size, mtime in ents:
-                    if len(name.encode()) > 200 or mtime < 0:
+                truth = []
+                for i, (name, kind, size, mtime, perm) in enumerate(ents):
+                    if mtime < 0:
                         continue
                     p = tdir / "d" / name
                     try:
@@ -941,48 +1176,91 @@ async def _wire(ctx, tp, rng, thorough):
                             p.write_bytes(b"x" * size)
                         else:
                             p.mkdir()
+                        os.chmod(p, perm | (0o4000 if st_round and i == 1 and kind == "file" and not perm & 0o100 else 0))
                         os.utime(p, (mtime, mtime))
+                        st = os.stat(p)
                     except OSError:
                         continue
-                    use.append((name, kind, size if kind == "file" else None, mtime))
+                    truth.append({"name": name, "kind": kind, "size": st.st_size, "mtime": mtime, "ctime": math.floor(st.st_ctime),
+                                  "nlink": st.st_nlink, "mode": st.st_mode})
+                    if int(st.st_mtime) != mtime:
+                        ctx.notes.append(f"os.utime did not take: {name!r} {st.st_mtime} != {mtime}")
                 factory = aioftp.PathIO if backend == "pathio" else aioftp.AsyncPathIO
                 base = str(tdir)
-            user = aioftp.User(base_path=base, home_path="/")
-            server = aioftp.Server([user], path_io_factory=factory)
-            await server.start("127.0.0.1", 0)
-            port = server.server.sockets[0].getsockname()[1]
-            try:
-                for cmd in ("MLSD", "LIST"):
-                    client = aioftp.Client()
-                    tp.now = now
-                    set_client_now(naive(now2))
-                    await client.connect("127.0.0.1", port)
-                    await client.login()
-                    got = await client.list("d", raw_command=cmd)
-                    ctx.traces_impl += 1
-                    nsess += 1
-                    ctx.case(("wire", backend, cmd, rnd, now))
-                    ents_cmp = [(n, k, (s if s is not None else None), m) for n, k, s, m in use]
-                    check_listing(ctx, backend, cmd, [(n, k, s, m) for n, k, s, m in ents_cmp], got, now, now2,
-                                  f"{backend} {cmd}")
-                    # stat() of each entry: MLST
-                    if cmd == "MLSD":
-                        for name, kind, size, mtime in use[:5]:
-                            info = await client.stat("d/" + name) if name == name.strip() else None
-                            if info is None:
-                                continue
-                            ctx.case(("wire-stat", backend, name, mtime))
-                            want = fmt14(naive(mtime), "second")
-                            if info.get("type") != kind or info.get("modify") != want or (kind == "file" and info.get("size") != str(size)):
-                                ctx.violation(f"{backend} MLST {name!r}: {dict(info)} but backend has type={kind} size={size} mtime={mtime}",
-                                              {"key": "c07-wire-mlst", "backend": backend, "name": name, "kind": kind, "size": size,
-                                               "mtime": mtime, "got": dict(info)})
-                    await client.quit()
-            finally:
-                await server.close()
-                if backend != "memory":
-                    shutil.rmtree(tdir, ignore_errors=True)
-    ctx.count("wire:listing sessions (3 backends x MLSD/LIST)", nsess)
+            has_st = any("S" in stat_mod.filemode(e["mode"]) or "T" in stat_mod.filemode(e["mode"]) for e in truth)
+            for flavour in ("full", "no-mlsx"):
+                user = aioftp.User(base_path=base, home_path="/")
+                server = aioftp.Server([user], path_io_factory=factory)
+                if flavour == "no-mlsx":  # an FTP server without RFC 3659: MLSD / MLST answered 502
+                    del server.commands_mapping["mlsd"], server.commands_mapping["mlst"]
+                await server.start("127.0.0.1", 0)
+                port = server.server.sockets[0].getsockname()[1]
+                try:
+                    for raw in (("MLSD", "LIST") if flavour == "full" else (None,)):
+                        cmd = raw or "LIST"  # what reads the listing
+                        client = aioftp.Client()
+                        tp.now = now
+                        set_client_now(naive(now2))
+                        await client.connect("127.0.0.1", port)
+                        await client.login()
+                        what = f"{backend} {flavour} list(raw_command={raw!r})"
+                        ctx.traces_impl += 1
+                        nsess += 1
+                        ctx.case(("wire", backend, flavour, raw, rnd, now))
+                        mm = model_listing(ctx, cmd, truth, now, now2, H, T)
+                        try:
+                            got = await client.list("d", raw_command=raw)
+                        except ValueError as e:
+                            got = None
+                            if mm[:1] != ["err"]:
+                                ctx.disagree("wire:" + what, {"entries": truth, "now": now}, mm, ["err", 1])
+                            if has_st and cmd == "LIST":
+                                ctx.violation(f"{what}: the whole LIST listing raises ValueError because of an S/T mode",
+                                              {"key": "c07-list-mode-S-or-T", "backend": backend, "entries": truth, "wire": True})
+                            else:
+                                ctx.violation(f"{what}: listing raises {e!r}"[:300],
+                                              {"key": "c07-wire-" + cmd.lower(), "backend": backend, "now": now, "client_now": now2,
+                                               "entries": truth, "error": repr(e)[:300]})
+                            client.close()
+                            continue
+                        check_listing(ctx, backend, cmd, truth, got, now, now2, what)
+                        im = canon_got(cmd, got)
+                        if mm != im:
+                            ctx.disagree("wire:" + what, {"entries": truth, "now": now, "client_now": now2}, mm, im)
+                        # stat() of entries: MLST on the full server, the listing fallback on the other one
+                        if raw in ("MLSD", None):
+                            for e in truth[:8]:
+                                name = e["name"]
+                                try:
+                                    info = await client.stat("d/" + name)
+                                except (aioftp.StatusCodeError, ValueError) as ex:
+                                    if flavour == "no-mlsx" and (name != name.lstrip() or has_st):
+                                        continue  # the two LIST findings, already reported by the listing above
+                                    info = {"error": repr(ex)[:200]}
+                                nstat += 1
+                                ctx.case(("wire-stat", backend, flavour, name, e["mtime"]))
+                                if flavour == "full":
+                                    want = fmt14(naive(e["mtime"]), "second")
+                                else:
+                                    want, _ = date_oracle(e["mtime"], now, now2, 0)
+                                if info.get("type") != e["kind"] or (want is not None and info.get("modify") != want) or info.get("size") != str(e["size"]):
+                                    ctx.violation(f"{backend} {flavour} stat({name!r}): {dict(info)} but the backend has {e}",
+                                                  {"key": "c07-wire-mlst" if flavour == "full" else "c07-wire-stat-fallback", "backend": backend,
+                                                   "entry": e, "now": now, "client_now": now2, "got": dict(info)})
+                            # a name that is not there must be reported missing
+                            try:
+                                await client.stat("d/no-such-entry")
+                                ctx.violation(f"{backend} {flavour} stat() of a missing entry returns facts",
+                                              {"key": "c07-wire-stat-invented", "backend": backend, "flavour": flavour})
+                            except aioftp.StatusCodeError:
+                                pass
+                        await client.quit()
+                finally:
+                    await server.close()
+            if tdir is not None:
+                shutil.rmtree(tdir, ignore_errors=True)
+    ctx.count("wire(simnet):listing sessions (3 backends x {MLSD, LIST, fallback from 502})", nsess)
+    ctx.count("wire(simnet):stat() calls (MLST / listing fallback)", nstat)
 
 
 # --------------------------------------------------------------------------------------------
